@@ -244,6 +244,7 @@ def run_check(prop, tier, seed):
     nontrivial_hashes = set()
     inconclusive = []
     sanitizer_reports = collections.Counter()
+    n_predumps = 0
     for t in tasks:
         inconclusive += t.inconclusive
         eng, flav = t.run["engine"], t.run["flavour"]
@@ -278,9 +279,15 @@ def run_check(prop, tier, seed):
                 gen = dict(spec_file=os.path.relpath(t.corpus_spec, VERIF))
             else:
                 gen = dict(config=cfgname, case=c["case"], seed=seed)
-            violations.append(dict(t="violation", prop=prop, engine=eng, flavour=flav, config=cfgname, case=c["case"],
-                                   seed=seed, kind=c["kind"], region="", detail=dict(returncode=c["rc"]),
-                                   stderr=c["stderr"][-3000:], gen=gen, x=t.run.get("x", {})))
+            v = dict(t="violation", prop=prop, engine=eng, flavour=flav, config=cfgname, case=c["case"],
+                     seed=seed, kind=c["kind"], region="", detail=dict(returncode=c["rc"]),
+                     stderr=c["stderr"][-3000:], gen=gen, x=t.run.get("x", {}))
+            if not t.corpus_spec and n_predumps < 12:
+                n_predumps += 1
+                spec = predump(t, prop, tier, seed, cfgname, c["case"])
+                if spec:
+                    v["spec"] = spec
+            violations.append(v)
         # post-processing hooks of the plan (e.g. TSan report extraction)
         post = t.run.get("post")
         if post:
@@ -377,6 +384,26 @@ def run_check(prop, tier, seed):
         log(f"INCONCLUSIVE: the monitors observed too little (cases={evaluations}, nontrivial={len(nontrivial_hashes)})")
         return 2, ev
     return 0, ev
+
+
+def predump(task, prop, tier, seed, config, case):
+    """Re-runs one (crashing) case with --x-predump 1 to recover its input."""
+    out = os.path.join(RUNDIR, f"{task.label}.predump.jsonl")
+    if os.path.exists(out):
+        os.unlink(out)
+    args = base_args(task.run, prop, tier, seed) + ["--config", config, "--case", str(case), "--x-predump", "1", "--out", out]
+    env = dict(os.environ)
+    env.update(build.FLAVOURS[task.run["flavour"]]["env"])
+    try:
+        subprocess.run([task.exe] + args, env=env, cwd=RUNDIR, stdout=subprocess.DEVNULL, stderr=subprocess.DEVNULL, timeout=600)
+    except subprocess.TimeoutExpired:
+        pass
+    t = Task(task.run, 0, 1, task.exe, "predump")
+    parse_out(out, t)
+    for r in t.records:
+        if r.get("t") == "predump" and r.get("spec"):
+            return r["spec"]
+    return None
 
 
 def extract_report(text, marker):
